@@ -135,6 +135,10 @@ fn run_one(
                             ("member", "Client") => 3,
                             ("member", "DropMsg") => 2,
                             ("member", "DropVQ") => 3,
+                            ("holds", "HoldIo") => 6,
+                            ("holds", "HoldApply") => 6,
+                            (_, "HoldIo") => if s["on"] == 0 { 8 } else { 0 },
+                            (_, "HoldApply") => if s["on"] == 0 { 8 } else { 0 },
                             (_, "Crash") => 2,
                             (_, "Stop") => 1,
                             (_, "Restart") => 30,
